@@ -12,7 +12,7 @@ import (
 //
 // Rules:
 //  - If a message contains a plural, it must be the sole child.
-//  - A plural contains exactly {case 1} and {default} cases.
+//  - A plural contains exactly {case 1} and {default} cases, neither of them empty.
 func Validate(n *ast.MsgNode) error {
 	for i, child := range n.Body.Children() {
 		if n, ok := child.(*ast.MsgPluralNode); ok {
@@ -21,6 +21,11 @@ func Validate(n *ast.MsgNode) error {
 			}
 			if len(n.Cases) != 1 || n.Cases[0].Value != 1 {
 				return fmt.Errorf("PO requires two plural cases [1, default]. found %v", n.Cases)
+			}
+			// (an empty msgid is the header entry of a PO file, and an entry with an
+			// empty msgid_plural is written, and read back, as one without a plural.)
+			if len(n.Cases[0].Body.Children()) == 0 || n.Default == nil || len(n.Default.Children()) == 0 {
+				return fmt.Errorf("PO cannot hold a plural whose {case 1} or {default} is empty")
 			}
 		}
 	}
